@@ -27,10 +27,11 @@ func init() {
 			"ofmany/pos>=size", "ofmany/size=0", "ofmany/empty-sub", "builder/extend-pos>=size", "builder/extend-size=0", "builder/extend-empty", "builder/set-0", "builder/set-1", "builder/presized", "builder/over-dirty-capacity", "roundtrip/trailing-zero-words", "probe/bitmap>=2^31-bits"},
 		Families: func(c *mon.Config) []mon.Family {
 			return []mon.Family{
-				{Name: "of", N: c.Pick(40000, 4000000), Run: c12Of},
-				{Name: "roundtrip-zoo", N: c.Pick(10000, 1500000), Run: c12RoundTrip},
-				{Name: "ofmany", N: c.Pick(40000, 8000000), Run: c12OfMany},
-				{Name: "builder", N: c.Pick(60000, 10000000), Run: c12Builder},
+				{Name: "of", Env: 6, N: c.Pick(40000, 4000000), Run: c12Of},
+				{Name: "roundtrip-zoo", Env: 4, N: c.Pick(10000, 1500000), Run: c12RoundTrip},
+				{Name: "ofmany", Env: 4, N: c.Pick(40000, 8000000), Run: c12OfMany},
+				{Name: "builder", Env: 6, N: c.Pick(60000, 10000000), Run: c12Builder},
+				{Name: "big-lists", Env: 3, N: 7 * c.Pick(2, 60), Run: c12Big},
 				{Name: "huge-bitmap-probes", N: 1, Run: c12Huge},
 			}
 		},
@@ -534,6 +535,91 @@ func c12Builder(w *mon.W, idx int) {
 	w.Extra("builder_ops", int64(len(hist)))
 	w.Sample(func() interface{} {
 		return mon.D{"call": "Builder history", "presized": pre, "history": hist, "Offset": off}
+	})
+}
+
+// c12Big: the same calls on lists of 1000..300007 positions and bitmaps of thousands of words (lengths that are
+// no multiple of any small number): Of, ToArray round trip, OfMany over thousands of segments, one Builder fed
+// thousands of segments.
+func c12Big(w *mon.W, idx int) {
+	r := w.Rng
+	n := []int{1000, 4096, 4099, 10007, 65537, 100003, 300007}[idx%7]
+	gap := r.Pick(1, 2, 3, 7, 64, 200)
+	l := make([]int32, 0, n)
+	p := r.Intn(100)
+	for i := 0; i < n; i++ {
+		l = append(l, int32(p))
+		p += 1 + r.Intn(gap)
+	}
+	last := int(l[n-1])
+	w.Bucket("lists>=1000-positions")
+	in := append([]int32(nil), l...)
+	w.Op, w.A, w.Obj = "Of(big)", int64(n), nil
+	var got []uint64
+	nbits := last + 1
+	if idx%2 == 0 {
+		got = bitmap.Of(l)
+	} else {
+		nbits = last + 1 + r.Intn(300)
+		got = bitmap.Of(l, int32(nbits))
+	}
+	w.Eval(1)
+	exp := c12ExpectWords(in, nbits)
+	if !eqI32(in, l) {
+		w.Fail("Of/input-modified", mon.D{"positions": n})
+		return
+	}
+	if !eqWords(got, exp) {
+		at := 0
+		for at < len(got) && at < len(exp) && got[at] == exp[at] {
+			at++
+		}
+		w.Fail("Of/big-list", mon.D{"positions": n, "first": trunc32(in, 6), "got_words": len(got), "expected_words": len(exp), "first_different_word": at})
+		return
+	}
+	w.Op = "ToArray(big)"
+	arr := bitmap.ToArray(got)
+	w.Eval(1)
+	if !eqI32(arr, in) {
+		at := 0
+		for at < len(arr) && at < len(in) && arr[at] == in[at] {
+			at++
+		}
+		w.Fail("ToArray/big-bitmap", mon.D{"words": len(got), "got_len": len(arr), "expected_len": len(in), "first_different_element": at})
+		return
+	}
+	// OfMany / Builder: cut the same set into segments of random sizes
+	var subs [][]int32
+	var sizes []int32
+	b := bitmap.NewBuilder(int32(r.Pick(0, 64, nbits)))
+	base, i := 0, 0
+	for base <= last {
+		sz := 1 + r.Intn(r.Pick(3, 64, 130, 1000))
+		var sub []int32
+		for i < n && int(in[i]) < base+sz {
+			sub = append(sub, in[i]-int32(base))
+			i++
+		}
+		subs = append(subs, sub)
+		sizes = append(sizes, int32(sz))
+		b.Extend(sub, int32(sz))
+		base += sz
+	}
+	w.Op, w.A = "OfMany(big)", int64(len(subs))
+	many := bitmap.OfMany(subs, sizes)
+	w.Eval(2)
+	expM := c12ExpectWords(in, base)
+	if !eqWords(many, expM) {
+		w.Fail("OfMany/many-segments", mon.D{"segments": len(subs), "positions": n, "got_words": len(many), "expected_words": len(expM)})
+		return
+	}
+	if int(b.Offset) != base || !eqWords(trimZeros(cloneWords(b.Words)), trimZeros(expM)) || 64*len(b.Words) < base {
+		w.Fail("Builder/many-segments", mon.D{"segments": len(subs), "positions": n, "Offset": b.Offset, "expected_Offset": base, "len_Words": len(b.Words)})
+		return
+	}
+	w.Distinct(gen.Hash64(hashI32(in), uint64(nbits), hashI32(sizes)))
+	w.Sample(func() interface{} {
+		return mon.D{"call": "Of/ToArray/OfMany/Builder on a big list", "positions": n, "segments": len(subs)}
 	})
 }
 
